@@ -857,3 +857,28 @@ def search(ctx, tie_breaks, proof):
             out.append(" ".join(w[:cut] + ["io", "io", "io"]))
     out += [gen_any(ctx.rng) for _ in range(4000)]
     return out
+
+
+# ---- T1Y: the numerals of this property's models are tied to the current tree.  extract/consts2*.c + a source scan
+# rewrite lean/CoapVerif/Generated/Consts2.lean on every check; Props/C11Consts.lean proves `<model numeral / model
+# function> = Generated.C2.<name>` (design/T1.md).  A changed macro / enum value / case label / literal breaks one of
+# these named obligations.
+LEAN_MODULES = list(LEAN_MODULES) + ["CoapVerif.Props.C11Consts"]
+REQUIRED_THEOREMS = list(REQUIRED_THEOREMS) + [
+    "obsConst_matches_code",
+    "nextObserve_matches_code",
+    "setObserve_matches_code",
+    "newMid_matches_code",
+    "failCnt_width_matches_code",
+    "obsIgnore_matches_code",
+    "isCacheKey_matches_code",
+    "request_numerals_match_code",
+    "waitOf_matches_code",
+]
+TRUSTED_BASE = list(TRUSTED_BASE) + ["T1 extractors extract/consts2.c, consts2_net.c, consts2_opt.c, consts2_res.c and the source scan vlib/tables.py scan_consts2 / scan_oscore_protect (Generated/Consts2.lean)"]
+_t1x_prev_extract = globals().get("extract")
+
+
+def extract(ctx):
+    from vlib import tables
+    return (_t1x_prev_extract(ctx) if _t1x_prev_extract else []) + tables.extract_consts2()
